@@ -170,6 +170,7 @@ type rtProfile struct {
 	tracePct      int  // percentage of routers with WithTrace (default 25)
 	nProbes       int  // extra probes at the end (default 6..19)
 	noIcpt        bool
+	facadeHeavy   bool
 }
 
 // value that is likely to satisfy rule and to avoid the literal bytes of the pattern pool
@@ -314,7 +315,11 @@ func genRT(pr rtProfile) func(r *rand.Rand, w *W) [][]string {
 					}
 					w.Count("clean")
 				case 1:
-					ops = append(ops, append([]string{"remove", "r", pick(r, pool)}, list()...))
+					if pr.facadeHeavy && len(facIDs) > 1 {
+						ops = append(ops, append([]string{"remove", pick(r, facIDs[1:]), pick(r, []string{"", "/a", "x", "/{id}"})}, list(pick(r, handleMethods))...))
+					} else {
+						ops = append(ops, append([]string{"remove", "r", pick(r, pool)}, list()...))
+					}
 				default:
 					var ms []string
 					for k := 1 + r.Intn(2); k > 0; k-- {
@@ -329,7 +334,7 @@ func genRT(pr rtProfile) func(r *rand.Rand, w *W) [][]string {
 				w.Count("remove")
 			case pr.use && x < pr.removePct+8:
 				ops = append(ops, append([]string{"use"}, list(newMws(2)...)...))
-			case pr.facades && x < pr.removePct+20:
+			case pr.facades && (x < pr.removePct+20 || (pr.facadeHeavy && x < pr.removePct+35)):
 				id := "f" + itoa(len(facIDs))
 				kind := pick(r, []string{"prefix", "prefix", "resource"})
 				parent := pick(r, facIDs)
@@ -379,6 +384,9 @@ func genRT(pr rtProfile) func(r *rand.Rand, w *W) [][]string {
 				tgt := "r"
 				if pr.facades {
 					tgt = pick(r, facIDs)
+					if pr.facadeHeavy && len(facIDs) > 1 && r.Intn(4) != 0 {
+						tgt = pick(r, facIDs[1:])
+					}
 				}
 				var mws []string
 				if pr.use {
@@ -452,7 +460,12 @@ func genRT(pr rtProfile) func(r *rand.Rand, w *W) [][]string {
 				if r.Intn(6) == 0 {
 					kv = nil
 				}
-				ops = append(ops, append([]string{"url", "r", b2s(r.Intn(2) == 0), p}, list(kv...)...))
+				utgt := "r"
+				if pr.facadeHeavy && len(facIDs) > 1 && r.Intn(2) == 0 {
+					utgt = pick(r, facIDs[1:])
+					p = pick(r, []string{"", "/a", "/{id}", "x"})
+				}
+				ops = append(ops, append([]string{"url", utgt, b2s(r.Intn(2) == 0), p}, list(kv...)...))
 			}
 		}
 		return ops
@@ -473,6 +486,8 @@ func init() {
 		maxRoutes: 10, literalFanout: true, syntaxOps: true}), Exec: execRT}
 	suites["C09"] = Suite{Gen: genRT(rtProfile{removePct: 15, facades: true, use: true, maxRoutes: 12, probeEvery: true}), Exec: execRT}
 	suites["C10"] = Suite{Gen: genRT(rtProfile{malformedPct: 15, removePct: 10, urls: true, maxRoutes: 8, facades: true}), Exec: execRT}
+	suites["C19"] = Suite{Gen: genRT(rtProfile{removePct: 30, facades: true, use: true, urls: true, maxRoutes: 14, probeEvery: true,
+		allowProbes: true, facadeHeavy: true}), Exec: execC19}
 	suites["C17"] = Suite{Gen: genRT(rtProfile{malformedPct: 25, removePct: 10, badMethodPct: 45, dumpEvery: true, probeEvery: true,
 		allowProbes: true, repeatObs: true, maxRoutes: 9, literalFanout: true, syntaxOps: true}), Exec: execRT}
 	suites["C18"] = Suite{Gen: genRT(rtProfile{removePct: 20, tracePct: 70, allowProbes: true, use: true, maxRoutes: 8, rawPaths: true}), Exec: execRT}
